@@ -32,6 +32,15 @@ CHECKS = {
         note='Trusted: p21ref/smodel; defined types of INTEGER/REAL/NUMBER/STRING are judged like their base type.',
         technique='exhaustive configuration x single-deviation input enumeration on the real reader + table oracle',
         ref='3/C15'),
+    'C16': dict(
+        text='Explicit-state exploration of session histories on the real STEPfile: all combinations of <= 3 (thorough 4) instance templates (complete, '
+             'partially filled, externally mapped, with references) x ALL 4^n assignments of complete/incomplete/new/delete x the history read, set '
+             'states, save, load, save, load, save; after every load ids, types, values and MgrNode states are compared with a dict model, every re-save '
+             'byte for byte (time stamp masked).',
+        note='Trusted: p21ref. A partially filled instance marked "complete" is not judged; "saving again reproduces the file" is read modulo the '
+             'instances that were saved as deleted; delete only for unreferenced instances.',
+        technique='exhaustive enumeration of state assignments x fixed save/load history on the real object + reference-model comparison',
+        ref='3/C16'),
     'C19': dict(
         text='Explicit-state breadth-first search over operation histories on the real Python ARRAY/LIST/BAG/SET classes: 1224 constructions '
              '(bounds -1..3 x 0..4/unbounded x UNIQUE x OPTIONAL x 5 base types), every item assignment/add/read/query in every distinct state to depth 6 '
